@@ -12,8 +12,9 @@ REPO = os.environ.get("LIBWIFI_REPO", "/repo")
 WORK = os.path.join(VERIF, ".work")
 LEAN_DIR = os.path.join(VERIF, "lean")
 GEN_DIR = os.path.join(LEAN_DIR, "LWV", "Gen")
-EVIDENCE_DIR = os.path.join(VERIF, "evidence")
-REPLAY_DIR = os.path.join(VERIF, "replays")
+# the self-test (tools/seedtest.py) runs checks against a deliberately broken tree: its evidence must not replace the real one
+EVIDENCE_DIR = os.environ.get("LWV_EVIDENCE_DIR") or os.path.join(VERIF, "evidence")
+REPLAY_DIR = os.environ.get("LWV_REPLAY_DIR") or os.path.join(VERIF, "replays")
 SRC = os.path.join(REPO, "src")
 
 CFLAGS_COMMON = ["-std=gnu17", "-I" + SRC, '-DLIBWIFI_VERSION="verif"', "-DLIBWIFI_VERIF"]
